@@ -156,35 +156,75 @@ class ViewpointReorienter:
         return sorted(triangles, key=lambda t: np.dot(t.normal, vector))[-2:]
 
     def reorient(self, operation: Operation):
-        triangles = self._make_triangles(operation.point_array)
-        normals = self._get_normals(operation.center)
+        points = operation.point_array
+        center = operation.center
 
-        remaining_triangles = set(triangles)
+        # (only serves as a check for convexity)
+        self._make_triangles(points)
 
-        quads: Dict[OrientType, Quadrangle] = {}
+        normals = self._get_normals(center)
 
-        for key, normal in normals.items():
-            # Take two most nicely aligned triangles
-            aligned = self._get_aligned(list(remaining_triangles), normal)
+        # The operation knows which corners make its sides: take their mean normals
+        # (a side can be warped) instead of pairing up triangles of the hull
+        side_normals: Dict[OrientType, NPVectorType] = {}
+        for orient, corners in constants.FACE_MAP.items():
+            side_points = np.take(points, corners, axis=0)
+            normal = np.cross(side_points[2] - side_points[0], side_points[3] - side_points[1])
 
-            quads[key] = Quadrangle(aligned)
+            if np.dot(normal, np.average(side_points, axis=0) - center) < 0:
+                normal = -normal
 
-            remaining_triangles -= set(aligned)
+            side_normals[orient] = f.unit_vector(normal)
 
-        # find each point by intersecting specific quads
-        sorted_points = [
-            quads["bottom"].get_common_point(quads["front"], quads["left"]),
-            quads["bottom"].get_common_point(quads["front"], quads["right"]),
-            quads["bottom"].get_common_point(quads["back"], quads["right"]),
-            quads["bottom"].get_common_point(quads["back"], quads["left"]),
-            quads["top"].get_common_point(quads["front"], quads["left"]),
-            quads["top"].get_common_point(quads["front"], quads["right"]),
-            quads["top"].get_common_point(quads["back"], quads["right"]),
-            quads["top"].get_common_point(quads["back"], quads["left"]),
-        ]
+        opposite: Dict[OrientType, OrientType] = {
+            "front": "back",
+            "back": "front",
+            "top": "bottom",
+            "bottom": "top",
+            "left": "right",
+            "right": "left",
+        }
 
-        # with dubiously aligned faces, the greedy choice above can pair up triangles of
-        # different sides and name a corner twice; fail rather than overwrite the operation with that
+        # choose front, top and left by alignment; the other three are their opposites
+        sides: Dict[OrientType, OrientType] = {}
+        taken: List[OrientType] = []
+
+        for key in ("front", "top", "left"):
+            candidates = [orient for orient in side_normals if orient not in taken]
+            best = max(candidates, key=lambda orient: np.dot(side_normals[orient], normals[key]))
+
+            sides[key] = best
+            sides[opposite[key]] = opposite[best]
+            taken += [best, opposite[best]]
+
+        def get_corner(*keys: OrientType) -> NPPointType:
+            common = set.intersection(*[set(constants.FACE_MAP[sides[key]]) for key in keys])
+            return points[common.pop()]
+
+        def get_sorted_points() -> List[NPPointType]:
+            return [
+                get_corner("bottom", "front", "left"),
+                get_corner("bottom", "front", "right"),
+                get_corner("bottom", "back", "right"),
+                get_corner("bottom", "back", "left"),
+                get_corner("top", "front", "left"),
+                get_corner("top", "front", "right"),
+                get_corner("top", "back", "right"),
+                get_corner("top", "back", "left"),
+            ]
+
+        sorted_points = get_sorted_points()
+
+        # front and top decide which of the remaining two sides is left: the block must be right-handed
+        # (alignment alone can pick the wrong one on a tapered block, and the given numbering can be inside-out)
+        edge_1 = sorted_points[1] - sorted_points[0]
+        edge_2 = sorted_points[3] - sorted_points[0]
+        edge_3 = sorted_points[4] - sorted_points[0]
+        if np.dot(np.cross(edge_1, edge_2), edge_3) < 0:
+            sides["left"], sides["right"] = sides["right"], sides["left"]
+            sorted_points = get_sorted_points()
+
+        # (a safeguard: never overwrite the operation with a corner named twice)
         for i, point_1 in enumerate(sorted_points):
             for point_2 in sorted_points[i + 1 :]:
                 if f.norm(point_1 - point_2) < constants.TOL:
